@@ -185,6 +185,29 @@ def perturb_programs(rng, prog):
                     if qclass(v + 1e-10) == qclass(v):
                         out.append(("const+1e-10", q, False, s["h"]))
                     break
+    # a value inside a component fixed to an instance (also inside a passed-on ModelInstance)
+    def fixed_objs(x, path=()):
+        if isinstance(x, dict) and "obj" in x:
+            yield x
+            for v_ in x["kw"].values():
+                yield from fixed_objs(v_)
+        elif isinstance(x, dict):
+            for v_ in x.values():
+                yield from fixed_objs(v_)
+        elif isinstance(x, list):
+            for v_ in x:
+                yield from fixed_objs(v_)
+
+    for i, s in enumerate(prog):
+        if s["op"] in ("coll_list", "coll_dict", "coll_kw", "append"):
+            q = copy.deepcopy(prog)
+            objs = [o for o in fixed_objs(q[i]) if any(isinstance(v_, float) for v_ in o["kw"].values())]
+            if objs:
+                o = objs[-1]
+                a = next(k_ for k_, v_ in o["kw"].items() if isinstance(v_, float))
+                o["kw"][a] = o["kw"][a] + 1e-3
+                out.insert(0, ("fixed-instance-value+1e-3", q, True, s["h"]))
+                break
     # class swap
     swap = {"P2": "P2b", "P1": "P1b"}
     for i, s in enumerate(prog):
@@ -298,10 +321,12 @@ def one_case(ctx, prog, sspec=None, tag="__none__", label="gen"):
     same("non-identifying-search-settings", model, s2)
     # reload from the dictionary / JSON form the fit writes
     comp = X.node_of(model)
-    has_arith = has_kind(comp, ("arith", "modif"))
+    has_arith = has_kind(comp, ("arith",))  # (binary relations: operand names change on reload - known finding; unary ones are stable)
     has_array = has_kind(comp, ("array",))
     has_fixed_component = any(isinstance(m, af.Model) and m.prior_count == 0 for m in c03.reachable_models(model))
-    reload_cls = ("C07-reload-arith-names" if has_arith else "C07-reload-fixed-component" if has_fixed_component else
+    import c08
+    reload_cls = ("C07-reload-modelinstance-member" if c08.holds_model_instance(model) else
+                  "C07-reload-arith-names" if has_arith else "C07-reload-fixed-component" if has_fixed_component else
                   "C07-reload-array-dropped" if has_array else "C07-unstable-reload-json")
     try:
         d = json.loads(json.dumps(model.dict()))
